@@ -153,8 +153,9 @@ impl Parser {
                         .for_type(&TypecheckFlags::use_class(maybe_class_type.as_ref()))
                         .unwrap();
 
-                    if !key_type.eq_complex(
-                        map_type.key_type(),
+                    // the map's declared types judge what the literal supplies, not the other way round
+                    if !map_type.key_type().eq_complex(
+                        &key_type,
                         &TypecheckFlags::use_class(maybe_class_type.as_ref()),
                     ) {
                         errors.push(new_err(key_span, &input.user_data().get_source_file_name(), format!("This map expects keys with type `{}`, but instead found type `{key_type}`", map_type.key_type())))
@@ -164,8 +165,8 @@ impl Parser {
                         .for_type(&TypecheckFlags::use_class(maybe_class_type.as_ref()))
                         .unwrap();
 
-                    if !value_type.eq_complex(
-                        map_type.value_type(),
+                    if !map_type.value_type().eq_complex(
+                        &value_type,
                         &TypecheckFlags::use_class(maybe_class_type.as_ref()),
                     ) {
                         errors.push(new_err(value_span, &input.user_data().get_source_file_name(), format!("This map expects values with type `{}`, but instead found type `{value_type}`", map_type.value_type())))
